@@ -17,10 +17,6 @@ ListedDevs == {"Dev_SingleLineTrimEnd", "Dev_UnicodeTrim", "Dev_LoneCR"}
 Init == c \in 1..NObs /\ done = FALSE
 Finish ==
   /\ ~done /\ done' = TRUE /\ c' = c
-  /\ LET ob == Obs[c]
-         w  == Why(ob, {})
-     IN PrintT(ToJson(Verdict(ob, w = "", w,
-                              ob.abs.items[1].elem.children # <<>>,
-                              IF w = "" THEN {} ELSE {d \in ListedDevs : Why(ob, {d}) = ""})))
+  /\ LET ob == Obs[c] IN PrintT(ToJson(Judged(ob, Why, ListedDevs, ob.abs.items[1].elem.children # <<>>)))
 Next == Finish
 =============================================================================
